@@ -738,6 +738,8 @@ class Exec:
             for s, d in last['pairs']:
                 if last['cmd'] == 'copy' or (src_box, s) in self.copied:
                     self.copied.add((dst_box, d))
+                if last['cmd'] == 'move' and (src_box, s) in self.tainted:
+                    self.tainted.add((dst_box, d))     # the same file under a new UID
             if last['cmd'] == 'move':
                 self.moved_out[src_box].update(last['expunged'])
                 if last['pairs']:
@@ -756,8 +758,9 @@ def signature(ex: Exec, prev: dict, st: dict, discs: list) -> str | None:
         last = st['last']
         # COPY on maildir writes a metadata-only message: the copy's content is blank
         copied = set(ex.copied)
-        if last['cmd'] == 'copy':
-            copied |= {(last['dest'], d) for _, d in last['pairs']}
+        if last['cmd'] in ('copy', 'move') and last['cond'] == 'OK':
+            copied |= {(last['dest'], d) for s_, d in last['pairs']
+                       if last['cmd'] == 'copy' or (prev['sel'], s_) in ex.copied}
         if all(d[0] in ('content', 'fetchbody') and len(d) > 2 and d[2]['blank']
                and (d[2]['box'], d[2]['uid']) in copied for d in discs):
             return 'MaildirCopyLosesContent'
@@ -816,7 +819,7 @@ def make_report(ex: Exec, labels: list, cmds: list, prev: dict, cands: list,
         if obs_refused and ex.last_obs.cond in ('NO', 'BAD') and not ex.last_obs.events \
                 and not ex.compare_dumps(prev, ex.dump(prev['sel'])):
             latitude = True
-    what = (f'[{ex.bname}] step {len(labels)} {labels[-1]} = {cmds[-1][:120]!r}: '
+    what = (f'[{ex.bname}] step {len(labels)} {labels[-1]} = {cmds[-1][:100]!r}: '
             + '; '.join(d[1] for d in discs[:4]))
     replay = {'check': 'C10', 'backend': ex.bname, 'phase': phase, 'init': ex.init,
               'labels': labels, 'commands': cmds, 'metas': ex.metas, 'prev': prev,
@@ -853,7 +856,7 @@ def _graph_task(task) -> dict:
             line, meta, obs = ex.step(plabel, prev)
             ex.metas.append(meta)
             labels.append(plabel)
-            cmds.append(line[:200].decode('latin-1'))
+            cmds.append(line.decode('latin-1'))
             res['steps'] += 1
             discs = ex.compare_obs(prev, nodes[pdst], meta, obs)
             if discs:
@@ -874,7 +877,7 @@ def _graph_task(task) -> dict:
         line, meta, obs = ex.step(label, prev)
         ex.metas.append(meta)
         labels.append(label)
-        cmds.append(line[:200].decode('latin-1'))
+        cmds.append(line.decode('latin-1'))
         res['steps'] += 1
         dumps = ex.dump(nodes[cand_ids[0]]['sel'])
         res['full'] += 1
@@ -925,7 +928,7 @@ def _sim_task(task) -> dict:
             line, meta, obs = ex.step(label, prev)
             ex.metas.append(meta)
             labels.append(label)
-            cmds.append(line[:200].decode('latin-1'))
+            cmds.append(line.decode('latin-1'))
             res['steps'] += 1
             discs = ex.compare_obs(prev, st, meta, obs)
             ex.last_obs, ex.last_obs_discs = obs, list(discs)
@@ -1099,7 +1102,7 @@ class Driver:
             self._absorb(bname, r)
             done += bool(r.get('completed'))
             if n <= 2:
-                self.run.sample({'backend': bname, 'commands': r['cmds']})
+                self.run.sample({'backend': bname, 'commands': [c[:80] for c in r['cmds']]})
         if n < len(tasks):
             stats['sim_budget_exhausted'] = True
         stats['sim_behaviours'] = n
@@ -1111,29 +1114,29 @@ class Driver:
 # --------------------------------------------------------------------------
 
 
-def _graph(drv: Driver, run: Run, profile: str, kw: bool, maxcmds: int):
+def _graph(drv: Driver, profile: str, kw: bool, maxcmds: int):
     cfg = drv.write_cfg(f'g_{profile}_{int(kw)}.cfg', kw=kw, lat=['lenient', 'strict'],
                         appendkw=['keep', 'drop'], inits=['std'], maxcmds=maxcmds,
                         maxuid=9, profile=profile, twolevel=False, props=True)
-    graph, res = tlc.dump_graph(SPEC, cfg, workers=16)
-    run.add_model(res, f'RefMailbox graph profile={profile} kw={kw} maxcmds={maxcmds}')
-    if not res.ok:
-        raise tlc.TLCError(f'model check failed: {res.violated or res.error}')
-    nodes = {n: norm(s) for n, s in graph.nodes.items()}
-    return graph, nodes
+    graph, res = tlc.dump_graph(SPEC, cfg, workers=8)
+    name = f'RefMailbox graph profile={profile} kw={kw} maxcmds={maxcmds}'
+    nodes = {n: norm(s) for n, s in graph.nodes.items()} if res.ok else {}
+    return graph, nodes, res, name
 
 
-def _simulate(drv: Driver, run: Run, kw: bool, policy: set, num: int, depth_cmds: int, seed: int):
+def _simulate(drv: Driver, kw: bool, policy: frozenset, num: int, depth_cmds: int, seed: int):
+    """-> (behaviours, TLCResult, name).  The latitude constants are set to what the
+    backend exhibited in the exhaustive part (a sub-model of the full model)."""
     lat = [x for x in ('lenient', 'strict') if x in policy] or ['lenient', 'strict']
     akw = [x for x in ('keep', 'drop') if x in policy] or ['keep', 'drop']
-    cfg = drv.write_cfg(f's_{int(kw)}_{"".join(sorted(lat + akw))}.cfg', kw=kw, lat=lat,
+    cfg = drv.write_cfg(f's_{int(kw)}_{"".join(sorted(lat + akw))}_{num}.cfg', kw=kw, lat=lat,
                         appendkw=akw, inits=['std', 'empty'], maxcmds=depth_cmds,
-                        maxuid=12, profile='full', twolevel=True, props=False)
-    behs, res = tlc.simulate(SPEC, cfg, num=num, depth=2 * depth_cmds + 1, seed=seed)
-    run.add_model(res, f'RefMailbox -simulate kw={kw} Lat={lat} AppendKw={akw} num={num}')
-    if not res.ok or not behs:
-        raise tlc.TLCError(f'simulation failed: {res.violated or res.error or res.output[-500:]}')
-    return [[(l, norm(s)) for l, s in beh if not l.startswith('Pick')] for beh in behs]
+                        maxuid=12, profile='full', twolevel=True, props=True)
+    behs, res = tlc.simulate(SPEC, cfg, num=num, depth=2 * depth_cmds + 1, seed=seed,
+                             timeout=1500)
+    name = f'RefMailbox -simulate kw={kw} Lat={lat} AppendKw={akw} num={num}'
+    return ([[(l, norm(s)) for l, s in beh if not l.startswith('Pick')] for beh in behs],
+            res, name)
 
 
 def main(tier: str) -> int:
@@ -1157,10 +1160,24 @@ def main(tier: str) -> int:
     quick = tier == 'quick'
     try:
         t_all = time.time()
-        # 1 + 2: model check and exhaustive part
+        # 1: TLC - the two state graphs (keyword not permitted / permitted) and the
+        # sanity run of the FULL menu (every single command from both initial states),
+        # all with every property of the model; side by side, joined before any fork
+        from concurrent.futures import ThreadPoolExecutor
         prof = 'q' if quick else 't'
-        g0, n0 = _graph(drv, run, prof, False, 3)
-        g1, n1 = _graph(drv, run, prof, True, 3)
+        with ThreadPoolExecutor(max_workers=3) as tp:
+            f0 = tp.submit(_graph, drv, prof, False, 3)
+            f1 = tp.submit(_graph, drv, prof, True, 3)
+            fs = tp.submit(tlc.run_tlc, SPEC, drv.write_cfg(
+                'full1.cfg', kw=False, lat=['lenient', 'strict'], appendkw=['keep', 'drop'],
+                inits=['std', 'empty'], maxcmds=1, maxuid=12, profile='full', twolevel=False,
+                props=True), workers=4)
+            (g0, n0, r0, nm0), (g1, n1, r1, nm1), sres = f0.result(), f1.result(), fs.result()
+        for res, name in ((r0, nm0), (r1, nm1),
+                          (sres, 'RefMailbox full menu, 1 command, all properties')):
+            run.add_model(res, name)
+            if not res.ok:
+                raise tlc.TLCError(f'{name}: model check failed: {res.violated or res.error}')
         run.notes['graph'] = {'profile': prof,
                               'kw_not_permitted': {'nodes': len(g0.nodes), 'edges': g0.n_edges},
                               'kw_permitted': {'nodes': len(g1.nodes), 'edges': g1.n_edges}}
@@ -1168,9 +1185,9 @@ def main(tier: str) -> int:
             plan = [('dict', g0, n0, None, 30), ('maildir++', g0, n0, 500, 12),
                     ('maildirfs', g0, n0, 150, 6), ('maildir++kw', g1, n1, 300, 8)]
         else:
-            plan = [('dict', g0, n0, None, 300), ('maildir++', g0, n0, None, 300),
-                    ('maildirfs', g0, n0, 3000, 80), ('maildir++kw', g1, n1, None, 300),
-                    ('maildirfskw', g1, n1, 1500, 50)]
+            plan = [('dict', g0, n0, None, 240), ('maildir++', g0, n0, None, 330),
+                    ('maildirfs', g0, n0, 4000, 80), ('maildir++kw', g1, n1, 9000, 160),
+                    ('maildirfskw', g1, n1, 2000, 50)]
         for bname, g, nodes, limit, budget in plan:
             drv.graph_phase(bname, g, nodes, limit, budget)
         run.notes['graph_wall_s'] = round(time.time() - t_all, 1)
@@ -1179,15 +1196,27 @@ def main(tier: str) -> int:
             splan = [('dict', False, 400, 12), ('maildir++', False, 120, 6),
                      ('maildirfs', False, 60, 4), ('maildir++kw', True, 120, 6)]
         else:
-            splan = [('dict', False, 6000, 150), ('maildir++', False, 2500, 110),
-                     ('maildirfs', False, 800, 50), ('maildir++kw', True, 2500, 110),
+            splan = [('dict', False, 5000, 120), ('maildir++', False, 2000, 100),
+                     ('maildirfs', False, 800, 50), ('maildir++kw', True, 2000, 100),
                      ('maildirfskw', True, 600, 40)]
-        sims: dict = {}
+        # one TLC simulation per (KwPermitted, exhibited policy), run side by side
+        need: dict = {}
         for bname, kw, num, budget in splan:
-            pol = frozenset(drv.policy.get(bname, set()))
-            key = (kw, pol)
-            if key not in sims or len(sims[key]) < num:
-                sims[key] = _simulate(drv, run, kw, set(pol), num, 12, run.seed + 1)
+            key = (kw, frozenset(drv.policy.get(bname, set())))
+            need[key] = max(need.get(key, 0), num)
+        with ThreadPoolExecutor(max_workers=4) as tp:
+            futs = {key: tp.submit(_simulate, drv, key[0], key[1], num, 12, run.seed + 1)
+                    for key, num in need.items()}
+            sims = {}
+            for key, fut in futs.items():
+                behs, res, name = fut.result()
+                run.add_model(res, name)
+                if not res.ok or not behs:
+                    raise tlc.TLCError(f'{name} failed: '
+                                       f'{res.violated or res.error or res.output[-500:]}')
+                sims[key] = behs
+        for bname, kw, num, budget in splan:
+            key = (kw, frozenset(drv.policy.get(bname, set())))
             drv.sim_phase(bname, sims[key][:num], budget)
         run.notes['per_backend'] = drv.stats
         run.notes['latitude_resolutions_exhibited'] = {b: sorted(p) for b, p in drv.policy.items()}
@@ -1203,3 +1232,47 @@ def main(tier: str) -> int:
     finally:
         drv.cleanup()
     return run.finish()
+
+
+def replay(path: str) -> int:
+    """re-run the commands of a replay file on a fresh server of the same backend and
+    compare the last step with the successor states TLC allowed.  Exit 1 = reproduced."""
+    data = json.load(open(path))
+    rep = data.get('replay', data)
+    init = unjson(rep['init'])
+    init['nextcid'] = rep['init'].get('nextcid', 6)
+    ex = Exec(rep['backend'], init, random.Random(0))
+    try:
+        d0 = ex.setup(verify=True)
+        print(f'backend {rep["backend"]}; initial state '
+              + ('as the model says' if not d0 else 'DIFFERS: ' + '; '.join(d[1] for d in d0)))
+        if rep['labels'] == ['Init']:
+            print('REPRODUCED' if d0 else 'NOT REPRODUCED')
+            return 1 if d0 else 0
+        obs = None
+        for label, cmd in zip(rep['labels'], rep['commands']):
+            raw = ex.cmd('a', cmd.encode('latin-1'))
+            ex.last_raw = raw
+            obs = Obs(raw)
+            print(f'C: {cmd[:110]!r}   ({label})')
+            for ln in raw.decode('latin-1').splitlines()[:14]:
+                print('   S: ' + ln[:150])
+        prev = unjson(rep['prev'])
+        cands = [unjson(c) for c in rep['cands']]
+        meta = rep['metas'][-1]
+        dumps = ex.dump(cands[0]['sel'])
+        results = [ex.compare_obs(prev, c, meta, obs) + ex.compare_dumps(c, dumps) for c in cands]
+        for b in BOXES:
+            print(f'{b} now: ' + ', '.join(
+                f'uid {m["uid"] + ex.off} {m["f"]} {len(m["body"])} octets' for m in dumps[b][0]))
+        if all(results):
+            best = min(results, key=len)
+            print('discrepancies against the closest state the model allows:')
+            for d in best:
+                print('  - ' + d[1])
+            print('REPRODUCED')
+            return 1
+        print('NOT REPRODUCED (the server now agrees with the model)')
+        return 0
+    finally:
+        ex.close()
